@@ -215,3 +215,94 @@ Proof.
   destruct (Nat.eq_dec j i) as [->|Hne]; auto. apply (IH (S i) s H). lia.
 Qed.
 End Tagging.
+
+(* ------------------------------------------------------------------ *)
+(* the chunk size of a source's queue                                     *)
+
+Lemma queue_chunk_explicit c b : c <> 0 -> queue_chunk c b = c.
+Proof. intros H. unfold queue_chunk. destruct (c =? 0) eqn:E; [apply Z.eqb_eq in E; contradiction|reflexivity]. Qed.
+
+Lemma queue_chunk_omitted b : queue_chunk 0 b = b.
+Proof. reflexivity. Qed.
+
+Lemma tags_chunks_in : forall l x, In x (tags_chunks l) -> In x l.
+Proof.
+  intros [|d r] x H; [exact H|]. cbn [tags_chunks] in H. destruct H as [<-|H]; [left; reflexivity|].
+  apply in_map_iff in H. destruct H as [c [Hc Hin]].
+  destruct (c =? 0); subst; [left; reflexivity | right; exact Hin].
+Qed.
+
+(* every tag chunk-size written anywhere in the document *)
+Definition written_chunks (l : list csrc) : list Z :=
+  concat (map (fun s => match cs_tags s with Some x => x | None => [] end) l).
+
+(* the row of source number |pre|: for some tag list T made of chunk-sizes written in the
+   document (its own, or the inherited ones), and ITS OWN effective bin-size *)
+Lemma chunk_row : forall pre pb pt s post,
+  (forall x, In x pt -> In x (written_chunks (pre ++ s :: post)) \/ In x pt) ->
+  exists T pb',
+    nth (length pre) (chunk_table_from pb pt (pre ++ s :: post)) [] =
+      map (fun c => queue_chunk c (let b := if cs_bin s =? 0 then pb' else cs_bin s in
+                                   if b =? 0 then DEFAULT_BIN else b)) T /\
+    (forall x, In x T -> In x pt \/ In x (written_chunks (pre ++ s :: post))).
+Proof.
+  induction pre as [|a pre IH]; intros pb pt s post Hpt.
+  - cbn [app length nth chunk_table_from].
+    exists (match cs_tags s with Some x => tags_chunks x | None => pt end), pb. split; [reflexivity|].
+    intros x Hx. destruct (cs_tags s) as [t|] eqn:Et.
+    + right. apply tags_chunks_in in Hx. unfold written_chunks. cbn [map concat]. rewrite Et.
+      apply in_or_app. left. exact Hx.
+    + left. exact Hx.
+  - cbn [app length nth chunk_table_from].
+    set (b := if cs_bin a =? 0 then pb else cs_bin a).
+    set (t := match cs_tags a with Some x => tags_chunks x | None => pt end).
+    destruct (IH b t s post (fun x H => or_intror H)) as [T [pb' [Hrow HT]]].
+    exists T, pb'. split; [exact Hrow|].
+    intros x Hx. destruct (HT x Hx) as [Hin|Hin].
+    + unfold t in Hin. destruct (cs_tags a) as [ta|] eqn:Ea.
+      * right. apply tags_chunks_in in Hin. unfold written_chunks. cbn [map concat]. rewrite Ea.
+        apply in_or_app. left. exact Hin.
+      * left. exact Hin.
+    + right. unfold written_chunks in *. cbn [map concat]. apply in_or_app. right. exact Hin.
+Qed.
+
+(* C19: a source that gives a bin-size chunks every tag either with a chunk-size written
+   in the document for a tag, or with ITS OWN bin-size - never with another source's *)
+Theorem chunk_own_bin_or_written : forall pre s post x,
+  cs_bin s <> 0 ->
+  In x (nth (length pre) (chunk_table (pre ++ s :: post)) []) ->
+  x = cs_bin s \/ (x <> 0 /\ In x (written_chunks (pre ++ s :: post))).
+Proof.
+  intros pre s post x Hb Hin. unfold chunk_table in Hin.
+  destruct (chunk_row pre 0 [] s post (fun x H => or_intror H)) as [T [pb' [Hrow HT]]].
+  rewrite Hrow in Hin. cbv zeta in Hin.
+  destruct (cs_bin s =? 0) eqn:E; [apply Z.eqb_eq in E; contradiction|]. rewrite E in Hin.
+  apply in_map_iff in Hin. destruct Hin as [c [Hc Hin]].
+  destruct (Z.eq_dec c 0) as [->|Hne].
+  - left. rewrite <- Hc. reflexivity.
+  - right. rewrite queue_chunk_explicit in Hc by exact Hne. subst x. split; [exact Hne|].
+    destruct (HT c Hin) as [[]|H]; exact H.
+Qed.
+
+(* ... and with exactly its own tags when it gives them *)
+Lemma chunk_own_tags_from : forall pre pb pt s post t,
+  cs_tags s = Some t ->
+  exists b, nth (length pre) (chunk_table_from pb pt (pre ++ s :: post)) [] = map (fun c => queue_chunk c b) (tags_chunks t) /\
+            (cs_bin s <> 0 -> b = cs_bin s).
+Proof.
+  induction pre as [|a pre IH]; intros pb pt s post t Ht.
+  - cbn [app length nth chunk_table_from]. rewrite Ht. eexists. split; [reflexivity|].
+    intros Hb. destruct (cs_bin s =? 0) eqn:E; [apply Z.eqb_eq in E; contradiction|]. rewrite E. reflexivity.
+  - cbn [app length nth chunk_table_from]. apply IH. exact Ht.
+Qed.
+
+Theorem chunk_own_tags : forall pre s post t,
+  cs_tags s = Some t ->
+  exists b, nth (length pre) (chunk_table (pre ++ s :: post)) [] = map (fun c => queue_chunk c b) (tags_chunks t) /\
+            (cs_bin s <> 0 -> b = cs_bin s).
+Proof. intros. apply chunk_own_tags_from. assumption. Qed.
+
+Example chunk_table_two_sources :
+  chunk_table [mkcs 1048576 (Some [0; 0; 32768]); mkcs 65536 None; mkcs 0 (Some [0]); mkcs 0 None] =
+  [[1048576; 1048576; 32768]; [65536; 65536; 32768]; [65536]; [65536]].
+Proof. reflexivity. Qed.
